@@ -111,7 +111,7 @@ function genBody(rng, depth, roots, modRoots) {
   for (let i = rng.range(1, 3); i > 0; i--) {
     if (depth > 0 && rng.bool(0.45)) {
       const itemName = rng.bool(0.5) ? undefined : rng.pick(['it', 'row'])
-      const r = rng.int(10)
+      const r = rng.int(modRoots.length ? 12 : 10)
       const itemRoots = roots.filter((x) => x === 'item' || x === 'it' || x === 'row')
       let listE
       if (r < 4) listE = X.id('list')
@@ -119,7 +119,10 @@ function genBody(rng, depth, roots, modRoots) {
       else if (r < 7 && itemRoots.length) listE = X.mem(X.id(rng.pick(itemRoots)), 'sub')
       else if (r < 8 && modRoots.length) listE = X.mem(X.mem(X.id(modRoots[0]), 'o'), 'list')
       else if (r < 9) listE = rng.pick([X.call(X.id('fn'), []), X.arr([{ k: 'v', e: X.id('a') }, { k: 'v', e: X.id('b') }]), X.num('2')])
-      else listE = X.cond(X.id(rng.pick(['t', 'f'])), X.id('list'), X.id('prims'))
+      else if (r < 10) listE = X.cond(X.id(rng.pick(['t', 'f'])), X.id('list'), X.id('prims'))
+      // a list that is data on one branch and a script module member on the other
+      else if (r < 11) listE = X.cond(X.id(rng.pick(['t', 'f'])), X.id('list'), X.mem(X.mem(X.id(rng.pick(modRoots)), 'o'), 'list'))
+      else listE = X.cond(X.id(rng.pick(['t', 'f'])), X.mem(X.mem(X.id(rng.pick(modRoots)), 'o'), 'list'), X.mem(X.id('map'), 'p'))
       const inner = [...roots.filter((x) => x !== (itemName ?? 'item')), itemName ?? 'item']
       out.push({ t: 'for', list: M.ev(listE), item: itemName, index: undefined, key: rng.bool(0.3) ? 'v' : undefined, cond: null, node: { t: 'block', children: [...genBody(rng, depth - 1, inner, modRoots), probeIndex(rng)] } })
     } else out.push(probe(rng, roots, modRoots, pid++))
